@@ -27,6 +27,14 @@ def check(prop, tier, cap, only=None, procs=None, list_only=False, t0=None):
             print(o)
         return 0
     results = common.run_pool("harness.p_expr", obs, tier, cap, procs=procs)
+    if prop == "C05":
+        # metadata under substitution and rewriting: the rewriting utilities of C08 run again, checked for the metadata of their results
+        from . import p_c08
+
+        mobs = p_c08.meta_obligations(tier)
+        if only:
+            mobs = [o for o in mobs if fnmatch.fnmatchcase(o[0], only)]
+        results += common.run_pool("harness.p_c08", mobs, tier, cap, procs=procs)
     quick = tier == "quick"
     bounds = {
         "widths_ast": [1, 8, 32, 64] if quick else [1, 2, 3, 4, 8, 16, 32, 64, 128],
